@@ -229,6 +229,9 @@ def proper (c : Interval α) : Bool :=
 def wide (c : Interval α) : Bool :=
   Scalar.leb Scalar.zero c.prec && Bound.ltb (c.lo.addS (c.prec + Constants.TINY)) c.hi
 
+/-- inside the property's quantifier for the auto-correcting variant: at least `1e-9` wide -/
+def widthOk (c : Interval α) : Bool := Bound.leb (c.lo.addS Constants.NANO) c.hi
+
 /-! ### the code as it was before the repairs -/
 namespace Legacy
 
